@@ -155,6 +155,11 @@ def run(ctx):
             pre = [x for x in pre if x["g"] != "meas"]
             ccases.append({"op": "circuit", "mode": "exec", "n": n, "cn": n, "v": rand_vec(rng, n, "normalised"), "gates": pre + [g], "draws": [], "split": 0, "thr": rng.choice([10, 1]),
                            "arity_bad": True})
+    # states WIDER than the circuit (every gate index is valid on the wider register, so nothing else complains)
+    for n in (2, 3, 4):
+        for L in (0, 1, 3):
+            gates = [x for x in (c06.rand_any_gate(rng, n - 1, us) for _ in range(L)) if x["g"] != "meas"]
+            ccases.append({"op": "circuit", "mode": "exec", "n": n, "cn": n - 1, "v": rand_vec(rng, n, "normalised"), "gates": gates, "draws": [], "split": 0, "thr": 10})
     # circuits without gates: the width check does not depend on there being a gate to apply
     for n in (1, 2, 3, 4):
         for cn in (n, n + 1, max(1, n - 1), n + 2):
@@ -247,8 +252,8 @@ def run(ctx):
             if not in_range: ctx.violations.append(("Circuit::with_gates accepted a gate addressing a qubit outside the circuit", {"circuit_case": c, "brief": b}))
             e = r["exec"]
             cst["exec_ok" if e["r"] == "ok" else "exec_err"] += 1
-            if c["cn"] != c["n"] and e["r"] == "ok":
-                ctx.violations.append(("a circuit was executed on a state of a different width", {"circuit_case": c, "brief": b}))
+            if c["cn"] != c["n"] and (e["r"] == "ok" or r.get("trace", {}).get("r") == "ok"):
+                ctx.violations.append(("a circuit was %s on a state of a different width" % ("executed" if e["r"] == "ok" else "traced"), {"circuit_case": c, "brief": b}))
             if c.get("arity_bad") and (e["r"] == "ok" or r.get("trace", {}).get("r") == "ok"):
                 ctx.violations.append(("a gate with the wrong number of targets / controls was executed: a state was returned instead of an error", {"circuit_case": c, "brief": b}))
     stats["circuits"] = cst
